@@ -11,7 +11,7 @@ RULE = ("zone ids of the active provider (quick: a seeded sample per shard + sen
         "component: well-formedness (TZID, >=1 observance, DTSTART/TZOFFSETFROM/TZOFFSETTO/TZNAME, onsets inside the window); the transition table of the "
         "source zone (pytz's own table / daily scan + bisection on zoneinfo's own utcoffset, tzname, dst) is aligned with the table the RFC 5545 reading (R5) "
         "of the component gives; then offset and abbreviation of R5(component) and of component.to_tz() are compared with the source at every transition "
-        "-1 s / 0 / +1 s, at interval midpoints and on a grid (thorough: 6 h, quick: 5 d); regenerating from the converted zone must give the same "
+        "-1 s / 0 / +1 s, at interval midpoints and on a grid (thorough: 6 h, quick: 5 d); a converted zone must keep its answers after another VTIMEZONE was converted; regenerating from the converted zone must give the same "
         "component; non-trivial = zone with at least one transition in the window; distinct by case hash")
 ASSUMPTIONS = ["the source zone is judged by the active provider's own answers (S6)", "instants are compared inside [window start, window end)",
                "a discrepancy is attributed to a known finding only if the whole generated table equals the table predicted from the source under the listed mechanisms"]
@@ -20,7 +20,8 @@ HARD_S = {"quick": 900, "thorough": 14400}
 CASE_TIMEOUT_S = 120
 UTC = timezone.utc
 SENTINELS = ["Africa/Cairo", "Africa/Casablanca", "Africa/El_Aaiun", "Pacific/Apia", "Australia/Lord_Howe", "Europe/Dublin", "Antarctica/Troll", "Asia/Kolkata", "UTC",
-             "Africa/Algiers", "America/Argentina/Buenos_Aires", "Asia/Jerusalem", "Europe/Berlin", "America/New_York", "Asia/Hebron", "Europe/Lisbon", "Asia/Tehran"]
+             "Africa/Algiers", "America/Argentina/Buenos_Aires", "Asia/Jerusalem", "Europe/Berlin", "America/New_York", "Asia/Hebron", "Europe/Lisbon", "Asia/Tehran",
+             "Africa/Monrovia"]        # (Monrovia: the 1972 transition is at 00:44:30 UTC - not on a full minute)
 DAY = timedelta(days=1)
 
 
@@ -362,6 +363,24 @@ def check_case(ctx, case):
                 ctx.fail("converted-zone-differs", observed=(str(p), cs), expected=want, key=key)
                 if key is None:
                     return
+    # ---- a converted zone keeps its answers when another VTIMEZONE is converted afterwards (same process, same provider)
+    if conv is not None:
+        sample = [p.replace(microsecond=0) for p in sorted(instants) if lo <= p < hi][:: max(1, len(instants) // 12)][:14]
+        try:
+            st_first = [state_at(conv, p) for p in sample]
+            other = icalendar.Timezone.from_tzid("America/New_York" if z != "America/New_York" else "Europe/Berlin", tzp, date(1990, 1, 1), date(1995, 1, 1))
+            other_tz = other.to_tz(tzp, lookup_tzid=False)
+            state_at(other_tz, datetime(1992, 7, 1))
+            again_states = [state_at(conv, p) for p in sample]
+        except Exception as e:
+            st_first = again_states = None
+            ctx.count("second-conversion-skipped:" + type(e).__name__)
+        if st_first is not None:
+            if st_first != again_states:
+                k = next(j for j, (a, b) in enumerate(zip(st_first, again_states)) if a != b)
+                ctx.fail("converted-zone-changed-by-later-conversion", observed=(str(sample[k]), again_states[k]), expected=st_first[k])
+                return
+            ctx.count("second-conversions")
     # ---- regeneration
     if mixed:
         ctx.count("regeneration-skipped:mixed-providers")       # the converted zone is of the other provider's kind: "the same component" is not defined by the statement
